@@ -1,17 +1,58 @@
-(* C04 -- property theorems; see DESIGN.md section 6.  Grows as proofs are completed. *)
-From PJ.Model Require Import Base Lookup Terms Encoder Api.
-From PJ.Proofs Require Import Mirror MirrorRun EncoderProofs.
+(* C04 -- every valid Jelly stream decodes to exactly the statements it encodes. *)
+From PJ.Model Require Import Base Lookup Terms Wire Encoder Streams Decoder Spec.
+From PJ.Proofs Require Import DecoderProofs DecoderSound AgreeProofs.
 
-(* The split of an IRI into prefix and name loses nothing (what the reader concatenates is the IRI). *)
-Theorem C04_split_iri_lossless : forall iri : str, let '(p, n) := split_iri iri in p ++ n = iri.
-Proof. exact split_iri_app. Qed.
-Print Assumptions C04_split_iri_lossless.
+(* For EVERY row sequence the Spec referee accepts -- whatever eviction policy, IRI split points,
+   explicit-versus-zero ids, early or redundant entries, use of repeated terms, table sizes up to
+   4096, versions 0..2 the producer chose -- the options are accepted, the stream is routed to an
+   adapter, the decoder is built, and decoding yields exactly the events the stream denotes, in
+   order, without error. *)
+Theorem C04_decoder_sound :
+  forall (rows : list row) (evs : list event) (md : list (str * str)) (delimited : bool),
+    run rows = Valid evs ->
+    exists o rest ak st0,
+      rows = ROptions o :: rest /\
+      options_from_frame {| f_rows := rows; f_meta := md |} delimited = Ok (po_of o delimited) /\
+      route (o_phys o) = Ok ak /\ decoder_new (po_of o delimited) = Ok st0 /\
+      rows_obs Generic ak (po_of o delimited) rows st0 = (evs, None).
+Proof. exact decoder_sound. Qed.
+Print Assumptions C04_decoder_sound.
 
-(* Every index the writer emits for a key resolves on the reader to that key, for every history
-   of hits, misses and evictions of each table (the lookup core of the round trip; see C05). *)
-Theorem C04_lookup_indices_resolve :
-  forall (rule : lk_rule) (size : N) (keys : list str),
-    1 <= size ->
-    Forall2 (fun k o => exists obs, o = Some obs /\ obs_ok size k obs) keys (api_lookup rule size keys).
-Proof. exact api_lookup_ok. Qed.
-Print Assumptions C04_lookup_indices_resolve.
+(* The same for any partition of the rows into frames (empty frames, metadata, leading empty
+   frames included): options come from the first non-empty frame and the flat parse of the frame
+   list is the denotation. *)
+Theorem C04_decoder_sound_frames :
+  forall (fs : list frame) (evs : list event) (d : bool),
+    run_frames fs = Valid evs ->
+    exists po ak st0 sk first more,
+      skip_empty fs = (sk, first :: more) /\ options_from_frame first d = Ok po /\
+      route (po_phys po) = Ok ak /\ decoder_new po = Ok st0 /\
+      flat_obs (decode_frames Generic ak po fs st0) = (evs, None).
+Proof. exact decoder_sound_frames. Qed.
+Print Assumptions C04_decoder_sound_frames.
+
+(* One row: the simulation step, from any related pair of states. *)
+Theorem C04_step_simulation :
+  forall (r : row) (s s' : sstate) (evs : list event) (st : dstate) (ak : adapter_kind) (po : poptions),
+    R s st -> Ropts s ak po -> step r s = SOk (s', evs) ->
+    exists st', decode_row Generic ak po r st = Ok (st', evs) /\ R s' st' /\ Ropts s' ak po.
+Proof. exact step_sim. Qed.
+Print Assumptions C04_step_simulation.
+
+(* The rdflib decoder does the same on RDF 1.1 streams (it is a second copy that agrees row by row). *)
+Theorem C04_rdflib_agrees :
+  forall (ak : adapter_kind) (po : poptions) (fs : list frame) (st : dstate),
+    forallb (fun f => forallb row_rdf11 (f_rows f)) fs = true ->
+    decode_frames Generic ak po fs st = decode_frames Rdflib ak po fs st.
+Proof. exact decode_frames_agree. Qed.
+Print Assumptions C04_rdflib_agrees.
+
+(* non-vacuity: a concrete stream with an eviction-free but non-trivial shape is Valid *)
+Example a_valid_stream :
+  run [ROptions {| o_name := []; o_phys := 1; o_gen := false; o_star := false; o_maxn := 8; o_maxp := 1; o_maxd := 0; o_logical := 1; o_version := 1 |};
+       RPrefix 0 [104]; RName 0 [97]; RName 0 [98];
+       RTriple (Some (WIri 1 0)) (Some (WIri 0 0)) (Some (WLit [120] LkNone));
+       RTriple None None (Some (WIri 0 1))]
+  = Valid [ETriple (TIri [104; 97]) (TIri [104; 98]) (TLit [120] None None);
+           ETriple (TIri [104; 97]) (TIri [104; 98]) (TIri [104; 97])].
+Proof. vm_compute. reflexivity. Qed.
